@@ -91,17 +91,68 @@ Definition lengths_consistent (h : hist) : bool :=
   | (k0, _) :: r => forallb (fun kc => Nat.eqb (length (fst kc)) (length k0)) r
   end.
 
+(* ---- conversion of probabilities to counts for n_shots > 0: two variants.
+   RoundPerKey      (the code before fix 944f963)  {k: round(v*n_shots)}
+   LargestRemainder (the repaired code)
+       scaled   = {k: v*n_shots}
+       outcomes = {k: int(s // 1)}                                   floors
+       n_missing = round(sum(scaled.values())) - sum(outcomes.values())
+       for k in sorted(scaled, key=lambda k: (outcomes[k] - scaled[k], k))[:n_missing]: outcomes[k] += 1 *)
+Inductive conv_rule : Type := RoundPerKey | LargestRemainder.
+
+Definition to_counts (n : Z) (o : hist) : hist :=
+  map (fun kc => (fst kc, Z2Qc (round_half_even (snd kc * Z2Qc n)))) o.
+
+Definition scaled (n : Z) (o : hist) : hist := map (fun kc => (fst kc, snd kc * Z2Qc n)) o.
+Definition floors (sc : hist) : list (key * Z) := map (fun kc => (fst kc, Qfloor (this (snd kc)))) sc.
+Definition zsum_snd (l : list (key * Z)) : Z := fold_right (fun kf s => (snd kf + s)%Z) 0%Z l.
+
+Fixpoint key_ltb (a b : key) : bool :=            (* Python's < on strings over '0' < '1' *)
+  match a, b with
+  | [], [] => false
+  | [], _ :: _ => true
+  | _ :: _, [] => false
+  | x :: a', y :: b' => if Bool.eqb x y then key_ltb a' b' else negb x
+  end.
+Definition key_leb (a b : key) : bool := negb (key_ltb b a).
+(* tuple comparison (floor - scaled, key) <= (floor' - scaled', key') *)
+Definition ord_le (a b : Qc * key) : bool :=
+  match Qccompare (fst a) (fst b) with Lt => true | Gt => false | Eq => key_leb (snd a) (snd b) end.
+Fixpoint ord_insert (x : Qc * key) (l : list (Qc * key)) : list (Qc * key) :=
+  match l with
+  | [] => [x]
+  | y :: r => if ord_le x y then x :: l else y :: ord_insert x r
+  end.
+Definition ord_sort (l : list (Qc * key)) : list (Qc * key) := fold_right ord_insert [] l.   (* stable *)
+(* l[:m] *)
+Definition py_take {X} (m : Z) (l : list X) : list X :=
+  if (m <? 0)%Z then firstn (Z.to_nat (Z.of_nat (length l) + m)) l else firstn (Z.to_nat m) l.
+Definition kmem (k : key) (l : list key) : bool := existsb (key_eqb k) l.
+
+Definition apportion_order (sc : hist) : list key :=
+  map snd (ord_sort (map (fun kc => (Z2Qc (Qfloor (this (snd kc))) - snd kc, fst kc)) sc)).
+Definition n_missing (sc : hist) : Z := (round_half_even (total sc) - zsum_snd (floors sc))%Z.
+Definition apportion (n : Z) (o : hist) : hist :=
+  let sc := scaled n o in
+  let chosen := py_take (n_missing sc) (apportion_order sc) in
+  map (fun kf => (fst kf, Z2Qc (snd kf + (if kmem (fst kf) chosen then 1 else 0)))) (floors sc).
+
+Definition convert (r : conv_rule) (n : Z) (o : hist) : hist :=
+  match r with RoundPerKey => to_counts n o | LargestRemainder => apportion n o end.
+
 (* Histogram(outcomes, n_shots, msq_first, epsilon).counts *)
-Definition mk_histogram (outcomes : hist) (n_shots : Z) (msq_first : bool) (eps : Qc) : res hist :=
+Definition mk_histogram_with (r : conv_rule) (outcomes : hist) (n_shots : Z) (msq_first : bool) (eps : Qc) : res hist :=
   if negb (lengths_consistent outcomes) then Err ValueError
   else
     do counts <-
       (if (0 <? n_shots)%Z then
          if Qc_gtb (Qc_abs (total outcomes - 1)) eps then Err ValueError
-         else Ok (map (fun kc => (fst kc, Z2Qc (round_half_even (snd kc * Z2Qc n_shots)))) outcomes)
+         else Ok (convert r n_shots outcomes)
        else if (n_shots <? 0)%Z then Err ValueError
        else Ok outcomes);
     Ok (if msq_first then map (fun kc => (rev (fst kc), snd kc)) counts else counts).
+Definition mk_histogram := mk_histogram_with LargestRemainder.        (* the current code *)
+Definition mk_histogram_asis := mk_histogram_with RoundPerKey.        (* before the repair *)
 
 Definition n_shots_of (h : hist) : Qc := total h.
 Definition n_qubits_of (h : hist) : res nat :=
@@ -243,13 +294,6 @@ Definition split_last_n (freqs : hist) (n : Z) : hist * hist :=
 (* ---------------------------------------------------------------- printing (correspondence harness) *)
 Definition show_key (k : key) : string :=
   fold_right (fun (b : bool) s => String (if b then "1"%char else "0"%char) s) EmptyString k.
-Fixpoint key_ltb (a b : key) : bool :=
-  match a, b with
-  | [], [] => false
-  | [], _ :: _ => true
-  | _ :: _, [] => false
-  | x :: a', y :: b' => if Bool.eqb x y then key_ltb a' b' else negb x
-  end.
 Fixpoint insert_sorted (kc : key * Qc) (l : hist) : hist :=
   match l with
   | [] => [kc]
